@@ -118,6 +118,7 @@ def run(ctx, B):
             specs.append("hz%d 5 5 5 90 90 90 125 1 %d 1.0 0 0 0" % (abs(Z), Z))
         specs.append("noatoms 5 5 5 90 90 90 125 0")
         specs.append("flat 5 5 5 90 90 180 0 1 14 1.0 0 0 0")
+        specs.append("negatoms 5 5 5 90 90 90 125 -1")       # the size of the atom array overflows: the allocation inside Crystal_MakeCopy fails (its failure path, reached by arguments)
         for X_, var in ((XP, "plain"), (XA, "asan")):
             idx = X_.define_crystals(specs)
             I, E, h, k, l = domains.product(np.array(idx), np.array([-1.0, 0.0, 8.05, 1e9]), np.arange(-1, 2), np.arange(-1, 2), np.arange(-1, 2))
@@ -131,10 +132,16 @@ def run(ctx, B):
                     a = c03.argtuple(pl, j)
                     ctx.violation("%s|%s|hostile-crystal|%s" % (cfg, fn, "sanitizer" if rr["flags"][j] & F_SAN else "leak"), "%s%r on user crystal spec %r" % (fn, tuple(a), specs[int(a[0]) - idx[0]]),
                                   dict(cfg=cfg, variant=var, note="user crystal: " + specs[int(a[0]) - idx[0]], calls=[]))
-            pm = c03.Plan("Crystal_MakeCopy", "op", "i", [np.array(idx)], op="Crystal_MakeCopy")
-            rr = c03.run_plan(X_, pm, 0, ctx, cfg, variant=var)
-            if np.any((rr["flags"] & F_SAN) != 0) or np.any(rr["leak"] != 0):
-                ctx.violation("%s|Crystal_MakeCopy|hostile-crystal" % cfg, "Crystal_MakeCopy of a hostile user crystal: sanitizer report or leak")
+            # copy, dump the SOURCE, copy again: a failed copy must leave its source intact (it is released later by its owner, exactly once)
+            for opn in ("Crystal_MakeCopy", "crystal_dump", "Crystal_MakeCopy", "crystal_dump"):
+                pm = c03.Plan(opn, "op", "i", [np.array(idx)], op=opn)
+                rr = c03.run_plan(X_, pm, 0, ctx, cfg, variant=var)
+                ctx.add(evaluations=pm.n)
+                if np.any((rr["flags"] & F_SAN) != 0) or np.any(rr["leak"] != 0):
+                    j = int(np.nonzero(((rr["flags"] & F_SAN) != 0) | (rr["leak"] != 0))[0][0])
+                    ctx.violation("%s|Crystal_MakeCopy|hostile-crystal|%s" % (cfg, var), "Crystal_MakeCopy / dump of the source / second copy of the hostile user crystal %r: %s during %s" % (
+                        specs[j], "sanitizer report" if rr["flags"][j] & F_SAN else "leak", opn), dict(cfg=cfg, variant=var, note="user crystal: " + specs[j], calls=[]))
+                    break
         if cfg == "A":
             # --- formula strings: the C07 corpus with all its single-byte mutations, under leak accounting and ASan
             import c07
